@@ -1,7 +1,10 @@
-"""C38 — instrumented collections behave like the Python types they wrap: the integer-index list operations under proof
-(contents and exactly the right events), everything else (slices, sets, dicts) as the bounded complement."""
+"""C38 — instrumented collections behave like the Python types they wrap: the integer-index list operations and every
+instrumented set operation (add, discard, remove, pop, clear, update, difference_update, intersection_update,
+symmetric_difference_update and the four in-place operators) under proof -- contents as the builtin's and events that account
+exactly for the members that arrived and left; slices, dicts and iterable arguments with repeats as the bounded complement."""
 import importlib
 import contracts.collections_list  # noqa: F401
+import contracts.collections_set  # noqa: F401
 from pyvc.contract import FUNCS
 from vlib.proof import run_proofs
 from vlib.bounded import run_bounded
@@ -18,5 +21,6 @@ def run(run, tier, seed, args):
     run.assumptions += [
         "assumed contracts on the event helpers: __set logs ('A', item) and returns the item unchanged, __del logs ('R', item), __before_pop does nothing observable",
         "`fn` is the builtin list method of the same name (builtin contract); user-defined __eq__ of members is not modelled",
-        "under proof: append, insert, remove, __setitem__(int), __delitem__(int), pop; slice forms, extend, +=, clear, and the set/dict decorators are in the bounded complement (slice assignment has known defects, DESIGN §6 #3-#5)",
+        "under proof: list append, insert, remove, __setitem__(int), __delitem__(int), pop; all 13 set decorators with a set argument (the event clause of the bulk operations is order-insensitive: the ghost log starts empty and ends duplicate free with exactly one 'R' per member that left and one 'A' per arrival, 'W' for re-added members)",
+        "bounded complement only: list slice forms, extend, +=, clear (slice assignment has known defects, DESIGN §6 #3-#5), the dict decorators, set operations with non-set iterables (repeated members), _set_binops_check_strict (an arbitrary bool here)",
     ]
